@@ -106,21 +106,31 @@ Section Side.
     intros H t. inversion H; subst. cbn [eval]. rewrite (is_c_sound _ _ E), Q2R_1'. reflexivity.
   Qed.
 
+  Lemma add_cancel_sound a b r : add_cancel a b = Some r -> forall t, eval r env t = eval a env t - eval b env t.
+  Proof.
+    destruct a; cbn [add_cancel]; try discriminate.
+    destruct (expr_eqb a2 b) eqn:E2.
+    - intros H t. inversion H; subst. cbn [eval]. rewrite (expr_eqb_sound _ _ E2 env t). lra.
+    - destruct (expr_eqb a1 b) eqn:E1; [|discriminate].
+      intros H t. inversion H; subst. cbn [eval]. rewrite (expr_eqb_sound _ _ E1 env t). lra.
+  Qed.
+
   Lemma mkSub_sound a b t : eval (mkSub a b) env t = eval a env t - eval b env t.
   Proof.
     unfold mkSub. destruct (as_const a) eqn:Ea, (as_const b) eqn:Eb.
     - apply as_const_eq in Ea, Eb; subst; cbn [eval]. rewrite Qred_R, Q2R_minus. reflexivity.
     - destruct (expr_eqb a b) eqn:E.
       + cbn [eval]. rewrite (expr_eqb_sound _ _ E env t), Q2R_0'. lra.
-      + destruct (one_minus_arg b) eqn:O; [|reflexivity].
-        destruct (Qeq_bool q 1) eqn:Q1; [|reflexivity].
-        apply as_const_eq in Ea; subst. cbn [eval]. rewrite (one_minus_arg_sound _ _ O t).
-        apply Qeq_bool_R in Q1. rewrite Q1, Q2R_1'. lra.
+      + destruct (one_minus_arg b) eqn:O.
+        * destruct (Qeq_bool q 1) eqn:Q1; [|reflexivity].
+          apply as_const_eq in Ea; subst. cbn [eval]. rewrite (one_minus_arg_sound _ _ O t).
+          apply Qeq_bool_R in Q1. rewrite Q1, Q2R_1'. lra.
+        * destruct (add_cancel a b) eqn:C; [apply (add_cancel_sound _ _ _ C)|reflexivity].
     - apply as_const_eq in Eb; subst.
       destruct (Qeq_bool q 0) eqn:E; cbn [eval]; [apply Qeq_bool_R in E; rewrite E, Q2R_0'; lra | reflexivity].
     - destruct (expr_eqb a b) eqn:E.
       + cbn [eval]. rewrite (expr_eqb_sound _ _ E env t), Q2R_0'. lra.
-      + reflexivity.
+      + destruct (add_cancel a b) eqn:C; [apply (add_cancel_sound _ _ _ C)|reflexivity].
   Qed.
 
   Lemma mkMul_sound a b t : eval (mkMul a b) env t = eval a env t * eval b env t.
@@ -194,6 +204,16 @@ Section Side.
   Lemma simp_evf e : evf env (simp A e) = evf env e.
   Proof. unfold evf. apply functional_extensionality. intro t. apply simp_sound. Qed.
 
+  Lemma is_lt_sound x y : is_lt A x y = true -> forall t, eval x env t < eval y env t.
+  Proof.
+    unfold is_lt. intros H t. apply orb_true_iff in H. destruct H as [H|H].
+    - apply andb_true_iff in H. destruct H as [H1 H2].
+      rewrite (is_c_sound _ _ H1), Q2R_0'. apply (is_pos_sound _ H2).
+    - destruct y; try discriminate. apply orb_true_iff in H. destruct H as [H|H];
+        apply andb_true_iff in H; destruct H as [H1 H2]; cbn [eval];
+        rewrite (expr_eqb_sound _ _ H1 env t); pose proof (is_pos_sound _ H2 t); lra.
+  Qed.
+
   Lemma decide_ge_sound x y bb : decide_ge A x y = Some bb ->
     (if Rle_dec (ev0 env y) (ev0 env x) then true else false) = bb.
   Proof.
@@ -203,13 +223,17 @@ Section Side.
     { intros c Hc. destruct (Rle_dec (eval y env 0) (eval x env 0)) as [L|L]; destruct c; auto.
       - destruct Hc as [_ Hc]. symmetry; auto.
       - destruct Hc as [Hc _]. exfalso; auto. }
-    assert (Hgen : (if expr_eqb x y then Some true else if is_c y 0 && is_nonneg A x then Some true else None) = Some bb ->
+    assert (Hgen : (if expr_eqb x y then Some true else if is_c y 0 && is_nonneg A x then Some true
+                    else if is_lt A x y then Some false else None) = Some bb ->
                    (if Rle_dec (eval y env 0) (eval x env 0) then true else false) = bb).
     { intro H'. destruct (expr_eqb x y) eqn:E.
       - inversion H'; subst. apply G. split; auto. intros _. rewrite (expr_eqb_sound _ _ E env 0). lra.
-      - destruct (is_c y 0 && is_nonneg A x) eqn:E2; [|discriminate]. inversion H'; subst.
-        apply andb_true_iff in E2. destruct E2 as [E2 E3]. apply G. split; auto. intros _.
-        rewrite (is_c_sound _ _ E2), Q2R_0'. apply (is_nonneg_sound _ E3). }
+      - destruct (is_c y 0 && is_nonneg A x) eqn:E2.
+        + inversion H'; subst.
+          apply andb_true_iff in E2. destruct E2 as [E2 E3]. apply G. split; auto. intros _.
+          rewrite (is_c_sound _ _ E2), Q2R_0'. apply (is_nonneg_sound _ E3).
+        + destruct (is_lt A x y) eqn:E3; [|discriminate]. inversion H'; subst.
+          pose proof (is_lt_sound _ _ E3 0) as L. apply G. split; [discriminate|]. intro L'. exfalso. lra. }
     destruct (as_const x) eqn:Ex; [|exact (Hgen H)].
     destruct (as_const y) eqn:Ey; [|exact (Hgen H)].
     apply as_const_eq in Ex, Ey; subst. inversion H; subst. simpl. apply G.
@@ -389,6 +413,20 @@ Section Programs.
     rewrite <- (norm_sound A env Hok (subst_prog sg complex)).
     rewrite (prog_eqb_sound _ _ H3).
     apply norm_sound. assumption.
+  Qed.
+
+  (** two-sided nesting: both models instantiated over a common parameter vector *)
+  Theorem nesting2_sound A sgc sgs complex simple :
+    nests2 A sgc sgs complex simple = true ->
+    forall env, env_ok A env -> forall s, semp complex (env_of sgc env) s = semp simple (env_of sgs env) s.
+  Proof.
+    unfold nests2. intros H env Hok s.
+    repeat (apply andb_true_iff in H; let H' := fresh "H" in destruct H as [H H']).
+    rewrite <- (subst_prog_sem sgc H).
+    rewrite <- (subst_prog_sem sgs H3).
+    rewrite <- (norm_sound A env Hok (subst_prog sgc complex)).
+    rewrite <- (norm_sound A env Hok (subst_prog sgs simple)).
+    apply prog_eqb_sound. assumption.
   Qed.
 
   (** ** Well-formedness *)
